@@ -213,7 +213,8 @@ pub fn tree_walker(
         for entry in WalkDir::new(&source)
             .follow_links(config.dereference)
             .into_iter()
-            .filter_entry(|e| ignore_filter(e, &gitignore))
+            // The source root itself is never subject to its own ignore file.
+            .filter_entry(|e| e.depth() == 0 || ignore_filter(e, &gitignore))
         {
             debug!("Got tree entry {:?}", entry);
             let epath = entry?.into_path();
